@@ -33,6 +33,9 @@ def update(repo="/repo"):
             continue
         unit = fn[:-4]
         u = extract.process(os.path.join(cdir, fn), repo, vacuity=False)
+        hard = [w for w in getattr(u, "skipped_rewrites", []) if not w.get("optional")]
+        if hard:
+            raise SystemExit("%s: rewrite directives without a match on the baseline tree (typo or stale template): %r" % (unit, hard))
         base[unit] = {f["name"]: f.get("closures_unannotated", 0) for f in u.functions if f.get("closures_unannotated", 0)}
     with open(PATH, "w") as f:
         json.dump(base, f, indent=1, sort_keys=True)
